@@ -35,6 +35,7 @@ namespace c19
         std::vector<Rec> recs;
         unsigned long long rng;
         long accesses{0};
+        bool backoff{false};
     };
     struct Recorder
     {
@@ -140,6 +141,16 @@ namespace c19
             return;
         }
         b->recs.push_back(Rec{r.seq.fetch_add(1), e});
+        // a failed try_lock() is retried in a tight loop that would eat an evaluation-count budget within milliseconds
+        // (the threads it waits for may not even be scheduled on a loaded machine): back off
+        // (not here: the caller may hold other locks around its try_lock(); at its next access event)
+        if (e.kind == Event::TRYFAIL)
+            b->backoff = true;
+        else if (r.perturb >= 1 && b->backoff && e.kind == Event::ACCESS && e.heldMask == 0)
+        {
+            b->backoff = false;
+            std::this_thread::sleep_for(std::chrono::microseconds(300));
+        }
         // a non-atomic access made while owning none of the mutexes named at the site: this is where an unlucky
         // schedule would bite, so widen the window now and then
         if (r.perturb >= 2 && e.kind == Event::ACCESS && !e.atomic && e.heldMask == 0 && next(b) % 100 < 15)
